@@ -14,6 +14,7 @@ import (
 type Clause struct {
 	Kind  string // requires, ensures, invariant, decreases, lemma, chaninv
 	Props []string // non-empty: the clause is an obligation of these properties only (label@C11,C12)
+	NotProps []string // label@!C08: not an obligation (nor an assumption) in runs of these properties
 	AssumeScoped bool // label@~C08: also only assumed (at call sites) in runs of those properties
 	Label string
 	Expr  *Expr
@@ -35,6 +36,7 @@ type Contract struct {
 	NoOvf    bool // do not generate overflow obligations
 	Requires []*Clause
 	Assumes  []*Clause
+	OnClose  []*Clause // chan roles: what holds from the moment the channel is closed
 	Ensures  []*Clause
 	Modifies []*Expr // nil = inferred; non-nil (possibly empty) = declared
 	HasMod   bool
@@ -98,6 +100,17 @@ type SpecDef struct {
 	Body   *Expr
 }
 
+// inactive: the clause is neither proved nor assumed in a run of property prop.
+func (cl *Clause) inactive(prop string) bool {
+	if prop == "" {
+		return false
+	}
+	if len(cl.Props) > 0 && !hasProp(cl.Props, prop) {
+		return true
+	}
+	return hasProp(cl.NotProps, prop)
+}
+
 func hasProp(props []string, p string) bool {
 	for _, q := range props {
 		if q == p {
@@ -108,7 +121,7 @@ func hasProp(props []string, p string) bool {
 }
 
 var clauseKeywords = map[string]bool{
-	"props": true, "pure": true, "trusted": true, "wraps": true, "noovf": true, "requires": true, "ensures": true, "assumes": true,
+	"props": true, "pure": true, "trusted": true, "wraps": true, "noovf": true, "requires": true, "ensures": true, "assumes": true, "onclose": true,
 	"modifies": true, "loop": true, "params": true,
 }
 
@@ -178,7 +191,7 @@ func parseSpecFile(path, pkgPath string, sf *SpecFile) error {
 			case "chan":
 				// chan <Type.field> invariant <expr over v>
 				fs := strings.SplitN(rest, " ", 3)
-				if len(fs) < 3 || (fs[1] != "invariant" && fs[1] != "assume" && fs[1] != "closing") {
+				if len(fs) < 3 || (fs[1] != "invariant" && fs[1] != "assume" && fs[1] != "closing" && fs[1] != "onclose") {
 					return fmt.Errorf("%s:%d: bad chan clause", path, i+1)
 				}
 				cur = &Contract{Kind: "chan", Name: fs[0], Pkg: pkgPath, File: path, Line: i + 1}
@@ -186,6 +199,9 @@ func parseSpecFile(path, pkgPath string, sf *SpecFile) error {
 				kw := "ensures"
 				if fs[1] == "assume" {
 					kw = "assumes"
+				}
+				if fs[1] == "onclose" {
+					kw = "onclose" // holds when the channel is closed: proved at every close, assumed at receives from a closed channel
 				}
 				if fs[1] == "closing" {
 					kw = "requires" // stored in Requires of the chan contract: message predicate after which the peer closes the channel
@@ -352,7 +368,7 @@ func addClause(c *Contract, kw, text, file string, line int) error {
 				text = strings.TrimSpace(text[i+1:])
 			}
 		}
-		var props []string
+		var props, notProps []string
 		scoped := false
 		if j := strings.Index(label, "@"); j > 0 {
 			tags := label[j+1:]
@@ -360,14 +376,19 @@ func addClause(c *Contract, kw, text, file string, line int) error {
 				scoped = true
 				tags = tags[1:]
 			}
-			props = strings.Split(tags, ",")
+			if strings.HasPrefix(tags, "!") {
+				// label@!C08: everywhere except in runs of the listed properties (cost scoping)
+				notProps = strings.Split(tags[1:], ",")
+			} else {
+				props = strings.Split(tags, ",")
+			}
 			label = label[:j]
 		}
 		e, err := parseExpr(text)
 		if err != nil {
 			return nil, fmt.Errorf("%s:%d: %v", file, line, err)
 		}
-		return &Clause{Kind: kind, Label: label, Props: props, AssumeScoped: scoped, Expr: e, Text: text, File: file, Line: line}, nil
+		return &Clause{Kind: kind, Label: label, Props: props, NotProps: notProps, AssumeScoped: scoped, Expr: e, Text: text, File: file, Line: line}, nil
 	}
 	switch kw {
 	case "props":
@@ -401,6 +422,12 @@ func addClause(c *Contract, kw, text, file string, line int) error {
 			return err
 		}
 		c.Assumes = append(c.Assumes, cl)
+	case "onclose":
+		cl, err := mk("onclose", text)
+		if err != nil {
+			return err
+		}
+		c.OnClose = append(c.OnClose, cl)
 	case "ensures":
 		cl, err := mk("ensures", text)
 		if err != nil {
